@@ -9,6 +9,8 @@ import time
 DEFINITE = [
     (re.compile(r"postcondition not satisfied"), "ensures"),
     (re.compile(r"failed this postcondition"), "ensures"),
+    (re.compile(r"precondition not met: index in bounds"), "index"),
+    (re.compile(r"precondition not met"), "call-pre"),
     (re.compile(r"precondition not satisfied"), "call-pre"),
     (re.compile(r"failed precondition"), "call-pre"),
     (re.compile(r"invariant not satisfied before loop"), "invariant-entry"),
